@@ -130,6 +130,19 @@ Proof.
   - vm_compute. repeat split; reflexivity.
 Qed.
 
+(* three epochs, takes in the first and the third (1 % of 10 is 0: no record for epoch 2): the records [(1, 492); (3, 5)] sum to the DAO's 497 *)
+Example C10_take_rate_history_nonvacuous :
+  let h2 := nv_h ++ [ (T0 + 2 * DAY, PNewEpoch (mkFeeds true [(0, 500)] [] [] [])) ] in
+  phist_wf h2 /\
+  (let s := prun nv_c 1 h2 in
+   p_history s = [(1, 492); (3, 5)] /\ p_dao s = 497 /\ hist_sum (p_history s) = 497 /\ e_id (cur_epoch (p_dist s)) = 3).
+Proof.
+  cbn zeta. split.
+  - unfold phist_wf. apply Forall_app. split; [apply C10_nonvacuous|]. repeat constructor; cbn; lia.
+  - vm_compute. repeat split; reflexivity.
+Qed.
+
+Print Assumptions C10_take_rate_history_nonvacuous.
 Print Assumptions C10_take_rate_history.
 Print Assumptions C10_new_epoch_pipeline.
 Print Assumptions C10_conservation.
